@@ -128,6 +128,19 @@ impl<F: PrimeField> Shared<F> {
     }
 }
 
+thread_local! {
+    static OPS_USED: RefCell<std::collections::BTreeMap<&'static str, u64>> = RefCell::new(std::collections::BTreeMap::new());
+}
+fn used(k: &'static str) {
+    OPS_USED.with(|m| *m.borrow_mut().entry(k).or_insert(0) += 1);
+}
+pub fn ops_used_reset() {
+    OPS_USED.with(|m| m.borrow_mut().clear());
+}
+pub fn ops_used_take() -> Vec<(&'static str, u64)> {
+    OPS_USED.with(|m| std::mem::take(&mut *m.borrow_mut()).into_iter().collect())
+}
+
 enum Built<F: PrimeField> {
     Var(Variable<F>),
     Const(F),
@@ -137,8 +150,14 @@ enum Built<F: PrimeField> {
 impl<F: PrimeField> Built<F> {
     fn lc(self) -> LinearCombination<F> {
         match self {
-            Built::Var(v) => LinearCombination::from(v),
-            Built::Const(c) => LinearCombination::from(c),
+            Built::Var(v) => {
+                used("From<Variable>");
+                LinearCombination::from(v)
+            }
+            Built::Const(c) => {
+                used("From<F>");
+                LinearCombination::from(c)
+            }
             Built::Lc(l) => l,
         }
     }
@@ -159,63 +178,128 @@ fn build<F: PrimeField>(sh: &Shared<F>, e: &Expr) -> Built<F> {
         Expr::Raw(k) => Built::Var(vk_to_var(*k)),
         Expr::K(s) => Built::Const(s.f()),
         Expr::KC(c) => Built::Const(sh.model.coef(c)),
-        Expr::Empty => Built::Lc(LinearCombination::default()),
+        Expr::Empty => {
+            used("LC::default");
+            Built::Lc(LinearCombination::default())
+        }
         Expr::Terms(ts, by_ref) => {
             let v: Vec<(Variable<F>, F)> = ts
                 .iter()
                 .map(|(t, c)| (tv(sh, t), sh.model.coef(c)))
                 .collect();
             if *by_ref {
+                used("FromIterator<&(Variable,F)>");
                 Built::Lc(v.iter().collect())
             } else {
+                used("FromIterator<(Variable,F)>");
                 Built::Lc(v.into_iter().collect())
             }
         }
         Expr::Neg(a) => match build(sh, a) {
-            Built::Var(v) => Built::Lc(-v),
-            Built::Const(c) => Built::Lc(-LinearCombination::from(c)),
-            Built::Lc(l) => Built::Lc(-l),
+            Built::Var(v) => {
+                used("Neg for Variable");
+                Built::Lc(-v)
+            }
+            Built::Const(c) => {
+                used("From<F>");
+                Built::Lc(-LinearCombination::from(c))
+            }
+            Built::Lc(l) => {
+                used("Neg for LC");
+                Built::Lc(-l)
+            }
         },
         Expr::Scale(a, c) => {
             let c: F = sh.model.coef(c);
             match build(sh, a) {
-                Built::Var(v) => Built::Lc(v * c),
-                Built::Const(k) => Built::Lc(LinearCombination::from(k) * c),
-                Built::Lc(l) => Built::Lc(l * c),
+                Built::Var(v) => {
+                    used("Variable * S");
+                    Built::Lc(v * c)
+                }
+                Built::Const(k) => {
+                    used("From<F>");
+                    Built::Lc(LinearCombination::from(k) * c)
+                }
+                Built::Lc(l) => {
+                    used("LC * S");
+                    Built::Lc(l * c)
+                }
             }
         }
         Expr::Add(a, b) => {
             let a = build(sh, a);
             let b = build(sh, b);
             Built::Lc(match (a, b) {
-                (Built::Var(x), Built::Var(y)) => x + y,
-                (Built::Var(x), Built::Const(c)) => x + c,
-                (Built::Var(x), Built::Lc(l)) => x + l,
-                (Built::Const(c), y) => match y {
+                (Built::Var(x), Built::Var(y)) => {
+                    used("Variable + Variable");
+                    x + y
+                }
+                (Built::Var(x), Built::Const(c)) => {
+                    used("Variable + F");
+                    x + c
+                }
+                (Built::Var(x), Built::Lc(l)) => {
+                    used("Variable + LC");
+                    x + l
+                }
+                (Built::Const(c), y) => match {
+                    used("From<F>");
+                    y
+                } {
                     Built::Var(v) => LinearCombination::from(c) + v,
                     Built::Const(d) => LinearCombination::from(c) + d,
                     Built::Lc(l) => LinearCombination::from(c) + l,
                 },
-                (Built::Lc(l), Built::Var(y)) => l + y,
-                (Built::Lc(l), Built::Const(c)) => l + c,
-                (Built::Lc(l), Built::Lc(m)) => l + m,
+                (Built::Lc(l), Built::Var(y)) => {
+                    used("LC + Variable");
+                    l + y
+                }
+                (Built::Lc(l), Built::Const(c)) => {
+                    used("LC + F");
+                    l + c
+                }
+                (Built::Lc(l), Built::Lc(m)) => {
+                    used("LC + LC");
+                    l + m
+                }
             })
         }
         Expr::Sub(a, b) => {
             let a = build(sh, a);
             let b = build(sh, b);
             Built::Lc(match (a, b) {
-                (Built::Var(x), Built::Var(y)) => x - y,
-                (Built::Var(x), Built::Const(c)) => x - c,
-                (Built::Var(x), Built::Lc(l)) => x - l,
-                (Built::Const(c), y) => match y {
+                (Built::Var(x), Built::Var(y)) => {
+                    used("Variable - Variable");
+                    x - y
+                }
+                (Built::Var(x), Built::Const(c)) => {
+                    used("Variable - F");
+                    x - c
+                }
+                (Built::Var(x), Built::Lc(l)) => {
+                    used("Variable - LC");
+                    x - l
+                }
+                (Built::Const(c), y) => match {
+                    used("From<F>");
+                    y
+                } {
                     Built::Var(v) => LinearCombination::from(c) - v,
                     Built::Const(d) => LinearCombination::from(c) - d,
                     Built::Lc(l) => LinearCombination::from(c) - l,
                 },
-                (Built::Lc(l), Built::Var(y)) => l - y,
-                (Built::Lc(l), Built::Const(c)) => l - c,
-                (Built::Lc(l), Built::Lc(m)) => l - m,
+                (Built::Lc(l), Built::Var(y)) => {
+                    used("LC - Variable");
+                    l - y
+                }
+                (Built::Lc(l), Built::Const(c)) => {
+                    used("LC - F");
+                    l - c
+                }
+                (Built::Lc(l), Built::Lc(m)) => {
+                    used("LC - LC");
+                    l - m
+                }
             })
         }
     }
